@@ -12,7 +12,7 @@ import (
 func init() {
 	core.Register(&core.Check{
 		ID:     "C03",
-		Rule:   "cases: PRNG-filled messages (boundary scalars, NaN, -0.0, unknown fields, extensions, maps, oneofs, groups) of every linked message type, generated and dynamicpb, marshalled (deterministic and default) and decoded lazily and eagerly, plus default Marshal of a not-yet-accessed lazy decode; distinct = distinct deterministic encodings; non-trivial = at least one populated field",
+		Rule:   "cases: (local resolver) extensions of the generated TestAllExtensions types (open proto2; editions open, hybrid, opaque) that only a caller-supplied UnmarshalOptions.Resolver knows - scalar, string, message-typed, repeated message, NestedMessage (leading back to the extendee), two of them declared with generated Go message types - set at several nesting levels, decoded with that resolver into the generated type and dynamicpb, lazily and eagerly: same snapshot as the content, same deterministic bytes; PRNG-filled messages (boundary scalars, NaN, -0.0, unknown fields, extensions, maps, oneofs, groups) of every linked message type, generated and dynamicpb, marshalled (deterministic and default) and decoded lazily and eagerly, plus default Marshal of a not-yet-accessed lazy decode; distinct = distinct deterministic encodings; non-trivial = at least one populated field",
 		Assume: []string{"protoreflect accessors read a message faithfully (C28/C29 cross-check them)", "model/snapshot.go equality"},
 		Batches: func(tier string) []core.Batch {
 			if tier == "thorough" {
@@ -21,7 +21,7 @@ func init() {
 			return append(stdBatches([]string{"base"}, 16), stdBatches([]string{"ptr"}, 4)...)
 		},
 		Gates: func(tier string) map[string]int64 {
-			return map[string]int64{"roundtrips": 1000, "lazy_passthrough": 100, "cell:message/singular": 10, "cell:message/map": 5, "cell:group/singular": 1, "cell:unknown": 10, "dynamic": 100}
+			return map[string]int64{"roundtrips": 1000, "lazy_passthrough": 100, "cell:message/singular": 10, "cell:message/map": 5, "cell:group/singular": 1, "cell:unknown": 10, "dynamic": 100, "local_resolver_cases": 150, "local_resolver_decodes": 600}
 		},
 		Run: runC03,
 	})
